@@ -25,6 +25,7 @@ import Driver.GCMTop
 import Driver.SessionState
 import Driver.SM2Codec
 import Driver.P256Limbs
+import Driver.TLSMessages
 open Gmsm
 
 def dispatch (toks : List String) : String :=
@@ -74,6 +75,9 @@ def dispatch (toks : List String) : String :=
     | some r => r
     | none =>
     match Driver.p256LimbsDispatch toks with
+    | some r => r
+    | none =>
+    match Driver.tlsMessagesDispatch toks with
     | some r => r
     | none =>
     match toks with
